@@ -11,6 +11,10 @@
 (*   "concat"  .P |= . + "s"    (string scalars only)                      *)
 (*   "delpast" del(.P[7])  "selpast" (.P | select(.[5] == "nope")) = "NEW" *)
 (*             updates that address nothing and only READ past the end     *)
+(*   "mergeq"  .Q *=? {"k": "NEW", "own": "NEW"} where .Q inherits k        *)
+(*             through `<<`: only .Q.own is written, not the anchored map  *)
+(*   "mergeinto" .copyk = (.P * {"n": "NEW"}): the merge reads .P, only     *)
+(*             .copyk is written                                           *)
 (*   "setroot" . = {"n": "NEW"}   "updroot" . |= {...}: the document       *)
 (*             header (leading comments, `---`) must survive               *)
 (* Apply(u, root, P) is the document afterwards; nodes the update creates  *)
@@ -58,10 +62,12 @@ Expr(u, root, p) == LET pe == "." \o PathExpr(root, p) IN
     [] u = "setroot" -> ". = {\"n\": \"NEW\"}"
     [] u = "updroot" -> ". |= {\"n\": \"NEW\"}"
     [] u = "copydel" -> ".backup = " \o pe \o " | del(.backup[0]) | del(" \o pe \o "[1])"
+    [] u = "mergeq" -> "." \o PathExpr(root, SubSeq(p, 1, Len(p) - 1)) \o " *=? {\"k\": \"NEW\", \"" \o NodeAt(root, SubSeq(p, 1, Len(p) - 1)).es[p[Len(p)]].key.val \o "\": \"NEW\"}"
+    [] u = "mergeinto" -> ".copyk = (" \o pe \o " * {\"n\": \"NEW\"})"                      \* the merge READS its operand: only .copyk is written
 
 \* keys on the way must be addressable by their text (an alias used as a key is not)
 RECURSIVE Addressable(_,_)
-Addressable(n, p) == p = <<>> \/ ((n.k = "map" => n.es[Head(p)].key.k = "scalar" /\ n.es[Head(p)].key.val # "") /\ Addressable(Children(n)[Head(p)], Tail(p)))
+Addressable(n, p) == p = <<>> \/ ((n.k = "map" => n.es[Head(p)].key.k = "scalar" /\ n.es[Head(p)].key.val \notin {"", "<<"}) /\ Addressable(Children(n)[Head(p)], Tail(p)))
 \* an anchor inside the target that is used outside it must not be destroyed (that would be the user's error, not yq's)
 Parent(root, p) == NodeAt(root, SubSeq(p, 1, Len(p) - 1))
 KeyAnchors(root, p) == IF Parent(root, p).k = "map" THEN Anchors(Parent(root, p).es[p[Len(p)]].key) ELSE <<>>
@@ -80,10 +86,14 @@ CanApply(u, root, p) ==
        \* a history: copy a sequence, prune the copy, prune the original (the copy must not share anything with the original)
        [] u \in {"delpast", "selpast"} -> x.k = "seq"
        [] u \in {"setroot", "updroot"} -> p = <<1>> /\ root.k \in {"map", "seq"}          \* once per document (the target is the root itself)
+       \* `*=?` only writes keys the map has ITSELF: a key it merely inherits through `<<` is not the map's to write
+       [] u = "mergeq" -> p # <<>> /\ x.k = "scalar" /\ Parent(root, p).k = "map" /\ (\E i \in DOMAIN Parent(root, p).es : Parent(root, p).es[i].key.val = "<<" /\ Parent(root, p).es[i].v.k = "alias")
+       [] u = "mergeinto" -> x.k = "map" /\ root.k = "map" /\ p # <<>> /\ (\A i \in DOMAIN root.es : root.es[i].key.val # "copyk") /\ (\A i \in DOMAIN x.es : x.es[i].key.val # "n")
+                             /\ AliasTargets(x) = <<>>
        [] u = "copydel" -> x.k = "seq" /\ Len(x.es) >= 2 /\ root.k = "map" /\ (\A i \in DOMAIN root.es : root.es[i].key.val # "backup")
 Apply(u, root, p) ==
   LET x == NodeAt(root, p) IN
-  CASE u \in {"set", "upd"} -> PutAt(root, p, New("NEW"))
+  CASE u \in {"set", "upd", "mergeq"} -> PutAt(root, p, New("NEW"))
     [] u = "setmap" -> PutAt(root, p, NewMap(<<[key |-> NewKey("n"), v |-> New("NEW")]>>, x))
     [] u = "del"    -> LET par == Parent(root, p)  pp == SubSeq(p, 1, Len(p) - 1) IN
                        IF Len(par.es) = 1 THEN PutAt(root, pp, [par EXCEPT !.es = <<>>, !.st = "*"])     \* an emptied collection is written `{}` / `[]`
@@ -95,6 +105,7 @@ Apply(u, root, p) ==
     [] u = "concat" -> PutAt(root, p, [x EXCEPT !.val = "*", !.st = "*"])
     [] u \in {"delpast", "selpast"} -> root                                             \* nothing is addressed: nothing changes
     [] u \in {"setroot", "updroot"} -> NewMap(<<[key |-> NewKey("n"), v |-> New("NEW")]>>, root)
+    [] u = "mergeinto" -> [root EXCEPT !.es = Append(@, [key |-> NewKey("copyk"), v |-> Wild([x EXCEPT !.es = Append(@, [key |-> NewKey("n"), v |-> New("NEW")])])])]
     [] u = "copydel" -> LET pruned == PutAt(root, p, [x EXCEPT !.es = DropAt(@, 2)]) IN
                         [pruned EXCEPT !.es = Append(@, [key |-> NewKey("backup"), v |-> Wild([x EXCEPT !.es = Tail(@)])])]
 \* comments that must survive: everything outside the target subtree
@@ -106,16 +117,16 @@ BlankAdjacent(n, p) == IF p = <<>> THEN n
                             IF Head(p) = 1 /\ IsBlockColl(n) THEN [c EXCEPT !.lc = ""] ELSE c
 RECURSIVE IsLastNode(_,_)
 IsLastNode(n, p) == p = <<>> \/ (Head(p) = Len(Children(n)) /\ IsLastNode(Children(n)[Head(p)], Tail(p)))
-FootOpen(u, root, p) == u \in {"copydel", "setroot", "updroot"} \/ (u \notin {"append", "create", "delpast", "selpast"} /\ IsLastNode(root, p))
-Keep(u, root, p) == IF u \in {"delpast", "selpast"} THEN NodeComments(root)
+FootOpen(u, root, p) == u \in {"copydel", "mergeinto", "setroot", "updroot"} \/ (u \notin {"append", "create", "delpast", "selpast"} /\ IsLastNode(root, p))
+Keep(u, root, p) == IF u \in {"delpast", "selpast", "mergeinto"} THEN NodeComments(root)
                     ELSE IF u \in {"setroot", "updroot"} THEN <<>>                    \* the document's own header is added by the generator
                     ELSE IF u = "copydel" THEN NodeComments(PutAt(root, p, [NodeAt(root, p) EXCEPT !.es = DropAt(@, 2), !.hc = "", !.lc = "", !.fc = ""]))
                     ELSE IF u \in {"append", "create"} THEN NodeComments(PutAt(root, p, [NodeAt(root, p) EXCEPT !.hc = "", !.lc = "", !.fc = ""]))   \* the target's own comments are open, its children's are not
                     ELSE NodeComments(BlankAdjacent(PutAt(root, p, Plain("x")), p))
-Updates == {"set", "setmap", "upd", "del", "append", "create", "concat", "copydel", "delpast", "selpast", "setroot", "updroot"}
+Updates == {"set", "setmap", "upd", "del", "append", "create", "concat", "copydel", "mergeinto", "mergeq", "delpast", "selpast", "setroot", "updroot"}
 
 \* laws of the specification itself
-FrameLaw(u, root, p) == u \in {"copydel", "setroot", "updroot"} \/          \* every value path that is not below, at or (for del in a sequence) after the target denotes the same node afterwards
+FrameLaw(u, root, p) == u \in {"copydel", "mergeinto", "setroot", "updroot"} \/          \* every value path that is not below, at or (for del in a sequence) after the target denotes the same node afterwards
   LET after == Apply(u, root, p) IN
   \A q \in PathsOf(root, <<>>) :
      (Len(q) < Len(p) \/ SubSeq(q, 1, Len(p) - 1) # SubSeq(p, 1, Len(p) - 1) \/ q[Len(p)] < p[Len(p)]) /\ ~IsPrefix(q, p)
